@@ -99,6 +99,9 @@ fn dispatch(ctx: &Ctx) -> bool {
         "C13" => props::pubprops::run(ctx, props::pubprops::Which::C13),
         "C36" => props::pubprops::run_c36(ctx),
         "C24" => props::parsers::run(ctx),
+        "C25" => props::encodings::run_c25(ctx),
+        "C26" => props::encodings::run_c26(ctx),
+        "C27" => props::encodings::run_c27(ctx),
         _ => return false,
     }
     true
@@ -130,6 +133,7 @@ fn run_replay(id: &str, path: &PathBuf) -> i32 {
             case,
             if id == "C12" { props::pubprops::Which::C12 } else { props::pubprops::Which::C13 },
         ),
+        Some(k) if k.starts_with("c25_") || k.starts_with("c26_") || k.starts_with("c27_") => props::encodings::replay(case),
         Some("c24") | Some("c24_pilen") => props::parsers::replay(case),
         other => Err(format!("no replay handler for kind {:?}", other)),
     };
